@@ -123,6 +123,10 @@ class CustomDecisionPoint(DecisionPoint):
       raise ValueError(
           f'CustomDecisionPoint expects string type DNA. '
           f'Encountered: {dna!r}, Location: {self.location.path}.')
+    if dna.children:
+      raise ValueError(
+          f'CustomDecisionPoint expects no child DNA. '
+          f'Encountered: {dna!r}, Location: {self.location.path}.')
 
   def sym_jsonify(self, **kwargs: Any) -> utils.JSONValueType:
     """Overrides sym_jsonify to exclude non-serializable fields."""
